@@ -171,6 +171,21 @@ func (pr *prover) prove(g goal, p point, depth int) bool {
 			return true
 		}
 	}
+	// 2b. a positive constant: a branch fact k < len(s) with c <= k+1, or k <= len(s) with c <= k
+	if c, ok := g.a.(*ssa.Const); ok && c.Value != nil && c.Value.Kind() == constant.Int {
+		cv := c.Int64()
+		for _, r := range rs {
+			k, isC := r.x.(*ssa.Const)
+			if !isC || k.Value == nil || k.Value.Kind() != constant.Int || !isLenOf(r.y, g.s) {
+				continue
+			}
+			kv := k.Int64()
+			if (r.strict && cv <= kv+1) || (!r.strict && cv <= kv) {
+				pr.trace = append(pr.trace, fmt.Sprintf("%sbranch fact %d %s len(%s)", ind, kv, map[bool]string{true: "<", false: "<="}[r.strict], g.s.Name()))
+				return true
+			}
+		}
+	}
 	// 4. transitivity through facts a <= b / a < b
 	for _, r := range rs {
 		if sameVal(r.x, g.a) && r.y != g.a {
